@@ -188,11 +188,14 @@ func applyOp(b backend, op map[string]any) (out any) {
 	return "bad-op"
 }
 
-func genStorageOps(r *Rng, n int, names []string, allowCorrupt bool) []map[string]any {
+func genStorageOps(r *Rng, n int, names []string, allowCorrupt bool, vers ...int) []map[string]any {
 	var ops []map[string]any
 	for i := 0; i < n; i++ {
 		name := Pick(r, names)
 		ver := 1 + r.Intn(3)
+		if len(vers) > 0 {
+			ver = Pick(r, vers) // after the draw above, so that the other streams keep their cases
+		}
 		key := relKeyOf(name, ver)
 		rel := genRel{Name: name, Version: ver, Status: Pick(r, relStatuses), Payload: fmt.Sprintf("m%d", r.Intn(1000)), Labels: map[string]string{}}
 		if r.Chance(40) {
@@ -238,7 +241,7 @@ func genStorageOps(r *Rng, n int, names []string, allowCorrupt bool) []map[strin
 func corrStorage(seed uint64, n int, tier string, out string, replay string) {
 	m := StartModel()
 	defer m.Close()
-	rep := NewReport("C10", "storage", seed, "case = sequence of 12-30 create/get/update/delete/list/query calls (and, in a separate stream, planted undecodable records) over names x 3 revisions, run on the real memory, Secret and ConfigMap drivers (client-go fake clientset) and compared step by step with the Lean spec map and the per-driver models, and the backends with each other; plus round trips of generated releases (unicode, large manifests, nested values, hooks, timestamps, label sets); non-trivial = some key is used by at least two calls; distinct = hash of the op sequence")
+	rep := NewReport("C10", "storage", seed, "case = sequence of 12-30 create/get/update/delete/list/query calls (and, in a separate stream, planted undecodable records) over names x 3 revisions (every fourth case: revisions 2..100 on two names, where string order and numeric order of the keys differ), run on the real memory, Secret and ConfigMap drivers (client-go fake clientset) and compared step by step with the Lean spec map and the per-driver models, and the backends with each other; plus round trips of generated releases (unicode, large manifests, nested values, hooks, timestamps, label sets); non-trivial = some key is used by at least two calls; distinct = hash of the op sequence")
 	for i := 0; i < n; i++ {
 		r := NewRng(seed, uint64(i))
 		names := relNames[:3]
@@ -252,7 +255,12 @@ func corrStorage(seed uint64, n int, tier string, out string, replay string) {
 			allowCorrupt = true
 			stream = "corrupt"
 		}
-		ops := genStorageOps(r, 12+r.Intn(19), names, allowCorrupt)
+		var vers []int
+		if i%4 == 3 {
+			// revisions with one and two digits on one or two names: keys order differently as strings and as numbers
+			names, stream, vers = relNames[:2], "two-digit-revisions", []int{2, 3, 9, 10, 11, 12, 100}
+		}
+		ops := genStorageOps(r, 12+r.Intn(19), names, allowCorrupt, vers...)
 		storageCase(m, rep, ops, stream, seed, i)
 	}
 	for i := 0; i < n/4+1; i++ {
